@@ -1,0 +1,188 @@
+//go:build verif
+
+// Contracts for opcode selection (read as text by /verif's govc; comment-only). The tables are
+// written from arc/docs/spec.md (operators per numeric type, two's-complement wrapping per width,
+// comparisons yield 0 or 1) and the WebAssembly core specification (which opcode computes what).
+
+package wasm
+
+//@ import strings "strings"
+
+//@ # scalar numeric kinds
+//@ spec func SpecNumeric(k types.Kind) bool = k == types.KindU8 || k == types.KindU16 || k == types.KindU32 || k == types.KindU64 || k == types.KindI8 || k == types.KindI16 || k == types.KindI32 || k == types.KindI64 || k == types.KindF32 || k == types.KindF64
+//@ spec func SpecUnsigned(k types.Kind) bool = k == types.KindU8 || k == types.KindU16 || k == types.KindU32 || k == types.KindU64
+//@ spec func SpecFloat(k types.Kind) bool = k == types.KindF32 || k == types.KindF64
+//@ # the register a value of the kind lives in: 64-bit kinds in 64-bit registers, narrow integers in i32
+//@ spec func SpecRegister(k types.Kind) ValueType = __ite(k == types.KindF64, F64, __ite(k == types.KindF32, F32, __ite(k == types.KindI64 || k == types.KindU64, I64, I32)))
+//@ # choose by (float32, float64, signed 32, unsigned 32, signed 64, unsigned 64)
+//@ spec func pick(k types.Kind, f32 Opcode, f64 Opcode, s32 Opcode, u32 Opcode, s64 Opcode, u64 Opcode) Opcode = __ite(k == types.KindF32, f32, __ite(k == types.KindF64, f64, __ite(k == types.KindI64, s64, __ite(k == types.KindU64, u64, __ite(SpecUnsigned(k), u32, s32)))))
+//@ spec func SpecBinOp(op string, k types.Kind) Opcode =
+//@   __ite(op == "+", pick(k, OpF32Add, OpF64Add, OpI32Add, OpI32Add, OpI64Add, OpI64Add),
+//@   __ite(op == "-", pick(k, OpF32Sub, OpF64Sub, OpI32Sub, OpI32Sub, OpI64Sub, OpI64Sub),
+//@   __ite(op == "*", pick(k, OpF32Mul, OpF64Mul, OpI32Mul, OpI32Mul, OpI64Mul, OpI64Mul),
+//@   __ite(op == "/", pick(k, OpF32Div, OpF64Div, OpI32DivS, OpI32DivU, OpI64DivS, OpI64DivU),
+//@   __ite(op == "%", pick(k, 0, 0, OpI32RemS, OpI32RemU, OpI64RemS, OpI64RemU),
+//@   __ite(op == "==", pick(k, OpF32Eq, OpF64Eq, OpI32Eq, OpI32Eq, OpI64Eq, OpI64Eq),
+//@   __ite(op == "!=", pick(k, OpF32Ne, OpF64Ne, OpI32Ne, OpI32Ne, OpI64Ne, OpI64Ne),
+//@   __ite(op == "<", pick(k, OpF32Lt, OpF64Lt, OpI32LtS, OpI32LtU, OpI64LtS, OpI64LtU),
+//@   __ite(op == ">", pick(k, OpF32Gt, OpF64Gt, OpI32GtS, OpI32GtU, OpI64GtS, OpI64GtU),
+//@   __ite(op == "<=", pick(k, OpF32Le, OpF64Le, OpI32LeS, OpI32LeU, OpI64LeS, OpI64LeU),
+//@   __ite(op == ">=", pick(k, OpF32Ge, OpF64Ge, OpI32GeS, OpI32GeU, OpI64GeS, OpI64GeU), 0)))))))))))
+//@ spec func SpecKnownOp(op string) bool = op == "+" || op == "-" || op == "*" || op == "/" || op == "%" || op == "==" || op == "!=" || op == "<" || op == ">" || op == "<=" || op == ">="
+
+//@ func ConvertType(t types.Type) (r ValueType)
+//@   ensures SpecNumeric(t.Kind) ==> r == SpecRegister(t.Kind)
+//@   modifies nothing
+
+//@ func binaryOpcode(op string, t types.Type) (r Opcode, err error)
+//@   theory strings
+//@   ensures SpecNumeric(t.Kind) && SpecKnownOp(op) && !(op == "%" && SpecFloat(t.Kind)) ==> err == nil && r == SpecBinOp(op, t.Kind)
+//@   ensures op == "%" && SpecFloat(t.Kind) ==> err != nil
+//@   ensures !SpecKnownOp(op) ==> err != nil
+//@   modifies nothing
+
+//@ # ---- what the selected integer opcodes compute (WebAssembly core spec, section 4.3.2), on the
+//@ # register representation; division and remainder are only defined here for non-trapping operands
+//@ spec func b2u(b bool) uint32 = __ite(b, uint32(1), uint32(0))
+//@ spec func Sem32(op Opcode, x uint32, y uint32) uint32 =
+//@   __ite(op == OpI32Add, x + y, __ite(op == OpI32Sub, x - y, __ite(op == OpI32Mul, x * y,
+//@   __ite(op == OpI32DivU, x / y, __ite(op == OpI32DivS, uint32(int32(x) / int32(y)),
+//@   __ite(op == OpI32RemU, x % y, __ite(op == OpI32RemS, uint32(int32(x) % int32(y)),
+//@   __ite(op == OpI32Eq, b2u(x == y), __ite(op == OpI32Ne, b2u(x != y),
+//@   __ite(op == OpI32LtU, b2u(x < y), __ite(op == OpI32LtS, b2u(int32(x) < int32(y)),
+//@   __ite(op == OpI32GtU, b2u(x > y), __ite(op == OpI32GtS, b2u(int32(x) > int32(y)),
+//@   __ite(op == OpI32LeU, b2u(x <= y), __ite(op == OpI32LeS, b2u(int32(x) <= int32(y)),
+//@   __ite(op == OpI32GeU, b2u(x >= y), __ite(op == OpI32GeS, b2u(int32(x) >= int32(y)), uint32(4294967295))))))))))))))))))
+//@ spec func Sem64(op Opcode, x uint64, y uint64) uint64 =
+//@   __ite(op == OpI64Add, x + y, __ite(op == OpI64Sub, x - y, __ite(op == OpI64Mul, x * y,
+//@   __ite(op == OpI64DivU, x / y, __ite(op == OpI64DivS, uint64(int64(x) / int64(y)),
+//@   __ite(op == OpI64RemU, x % y, __ite(op == OpI64RemS, uint64(int64(x) % int64(y)), uint64(18446744073709551615))))))))
+//@ spec func Sem64Cmp(op Opcode, x uint64, y uint64) uint32 =
+//@   __ite(op == OpI64Eq, b2u(x == y), __ite(op == OpI64Ne, b2u(x != y),
+//@   __ite(op == OpI64LtU, b2u(x < y), __ite(op == OpI64LtS, b2u(int64(x) < int64(y)),
+//@   __ite(op == OpI64GtU, b2u(x > y), __ite(op == OpI64GtS, b2u(int64(x) > int64(y)),
+//@   __ite(op == OpI64LeU, b2u(x <= y), __ite(op == OpI64LeS, b2u(int64(x) <= int64(y)),
+//@   __ite(op == OpI64GeU, b2u(x >= y), __ite(op == OpI64GeS, b2u(int64(x) >= int64(y)), uint32(4294967295)))))))))))
+//@ spec func SpecArith(op string) bool = op == "+" || op == "-" || op == "*"
+//@ spec func SpecDivMod(op string) bool = op == "/" || op == "%"
+//@ spec func SpecCmp(op string) bool = op == "==" || op == "!=" || op == "<" || op == ">" || op == "<=" || op == ">="
+
+//@ # full-width integers: the selected opcode computes the language operation at the type's width
+//@ lemma widthU32(op string, a uint32, b uint32)
+//@   arith bv
+//@   requires !SpecDivMod(op) || b != 0
+//@   ensures op == "+" ==> Sem32(SpecBinOp(op, types.KindU32), a, b) == a + b
+//@   ensures op == "-" ==> Sem32(SpecBinOp(op, types.KindU32), a, b) == a - b
+//@   ensures op == "*" ==> Sem32(SpecBinOp(op, types.KindU32), a, b) == a * b
+//@   ensures op == "/" ==> Sem32(SpecBinOp(op, types.KindU32), a, b) == a / b
+//@   ensures op == "%" ==> Sem32(SpecBinOp(op, types.KindU32), a, b) == a % b
+//@   ensures op == "==" ==> Sem32(SpecBinOp(op, types.KindU32), a, b) == b2u(a == b)
+//@   ensures op == "!=" ==> Sem32(SpecBinOp(op, types.KindU32), a, b) == b2u(a != b)
+//@   ensures op == "<" ==> Sem32(SpecBinOp(op, types.KindU32), a, b) == b2u(a < b)
+//@   ensures op == ">" ==> Sem32(SpecBinOp(op, types.KindU32), a, b) == b2u(a > b)
+//@   ensures op == "<=" ==> Sem32(SpecBinOp(op, types.KindU32), a, b) == b2u(a <= b)
+//@   ensures op == ">=" ==> Sem32(SpecBinOp(op, types.KindU32), a, b) == b2u(a >= b)
+//@ lemma widthI32(op string, a int32, b int32)
+//@   arith bv
+//@   requires !SpecDivMod(op) || (b != 0 && !(a == -2147483648 && b == -1))
+//@   ensures op == "+" ==> Sem32(SpecBinOp(op, types.KindI32), uint32(a), uint32(b)) == uint32(a + b)
+//@   ensures op == "-" ==> Sem32(SpecBinOp(op, types.KindI32), uint32(a), uint32(b)) == uint32(a - b)
+//@   ensures op == "*" ==> Sem32(SpecBinOp(op, types.KindI32), uint32(a), uint32(b)) == uint32(a * b)
+//@   ensures op == "/" ==> Sem32(SpecBinOp(op, types.KindI32), uint32(a), uint32(b)) == uint32(a / b)
+//@   ensures op == "%" ==> Sem32(SpecBinOp(op, types.KindI32), uint32(a), uint32(b)) == uint32(a % b)
+//@   ensures op == "==" ==> Sem32(SpecBinOp(op, types.KindI32), uint32(a), uint32(b)) == b2u(a == b)
+//@   ensures op == "!=" ==> Sem32(SpecBinOp(op, types.KindI32), uint32(a), uint32(b)) == b2u(a != b)
+//@   ensures op == "<" ==> Sem32(SpecBinOp(op, types.KindI32), uint32(a), uint32(b)) == b2u(a < b)
+//@   ensures op == ">" ==> Sem32(SpecBinOp(op, types.KindI32), uint32(a), uint32(b)) == b2u(a > b)
+//@   ensures op == "<=" ==> Sem32(SpecBinOp(op, types.KindI32), uint32(a), uint32(b)) == b2u(a <= b)
+//@   ensures op == ">=" ==> Sem32(SpecBinOp(op, types.KindI32), uint32(a), uint32(b)) == b2u(a >= b)
+//@ lemma widthU64(op string, a uint64, b uint64)
+//@   arith bv
+//@   requires !SpecDivMod(op) || b != 0
+//@   ensures op == "+" ==> Sem64(SpecBinOp(op, types.KindU64), a, b) == a + b
+//@   ensures op == "-" ==> Sem64(SpecBinOp(op, types.KindU64), a, b) == a - b
+//@   ensures op == "*" ==> Sem64(SpecBinOp(op, types.KindU64), a, b) == a * b
+//@   ensures op == "/" ==> Sem64(SpecBinOp(op, types.KindU64), a, b) == a / b
+//@   ensures op == "%" ==> Sem64(SpecBinOp(op, types.KindU64), a, b) == a % b
+//@   ensures op == "==" ==> Sem64Cmp(SpecBinOp(op, types.KindU64), a, b) == b2u(a == b)
+//@   ensures op == "!=" ==> Sem64Cmp(SpecBinOp(op, types.KindU64), a, b) == b2u(a != b)
+//@   ensures op == "<" ==> Sem64Cmp(SpecBinOp(op, types.KindU64), a, b) == b2u(a < b)
+//@   ensures op == ">" ==> Sem64Cmp(SpecBinOp(op, types.KindU64), a, b) == b2u(a > b)
+//@   ensures op == "<=" ==> Sem64Cmp(SpecBinOp(op, types.KindU64), a, b) == b2u(a <= b)
+//@   ensures op == ">=" ==> Sem64Cmp(SpecBinOp(op, types.KindU64), a, b) == b2u(a >= b)
+//@ lemma widthI64(op string, a int64, b int64)
+//@   arith bv
+//@   requires !SpecDivMod(op) || (b != 0 && !(a == -9223372036854775808 && b == -1))
+//@   ensures op == "+" ==> Sem64(SpecBinOp(op, types.KindI64), uint64(a), uint64(b)) == uint64(a + b)
+//@   ensures op == "-" ==> Sem64(SpecBinOp(op, types.KindI64), uint64(a), uint64(b)) == uint64(a - b)
+//@   ensures op == "*" ==> Sem64(SpecBinOp(op, types.KindI64), uint64(a), uint64(b)) == uint64(a * b)
+//@   ensures op == "/" ==> Sem64(SpecBinOp(op, types.KindI64), uint64(a), uint64(b)) == uint64(a / b)
+//@   ensures op == "%" ==> Sem64(SpecBinOp(op, types.KindI64), uint64(a), uint64(b)) == uint64(a % b)
+//@   ensures op == "==" ==> Sem64Cmp(SpecBinOp(op, types.KindI64), uint64(a), uint64(b)) == b2u(a == b)
+//@   ensures op == "!=" ==> Sem64Cmp(SpecBinOp(op, types.KindI64), uint64(a), uint64(b)) == b2u(a != b)
+//@   ensures op == "<" ==> Sem64Cmp(SpecBinOp(op, types.KindI64), uint64(a), uint64(b)) == b2u(a < b)
+//@   ensures op == ">" ==> Sem64Cmp(SpecBinOp(op, types.KindI64), uint64(a), uint64(b)) == b2u(a > b)
+//@   ensures op == "<=" ==> Sem64Cmp(SpecBinOp(op, types.KindI64), uint64(a), uint64(b)) == b2u(a <= b)
+//@   ensures op == ">=" ==> Sem64Cmp(SpecBinOp(op, types.KindI64), uint64(a), uint64(b)) == b2u(a >= b)
+
+//@ # narrow integers (u8, u16, i8, i16) live in i32 registers, zero- resp. sign-extended. Division,
+//@ # remainder and comparison on extended operands give the extended result ...
+//@ lemma narrowDivCmpU8(op string, a uint8, b uint8)
+//@   arith bv
+//@   requires !SpecDivMod(op) || b != 0
+//@   ensures op == "/" ==> Sem32(SpecBinOp(op, types.KindU8), uint32(a), uint32(b)) == uint32(a / b)
+//@   ensures op == "%" ==> Sem32(SpecBinOp(op, types.KindU8), uint32(a), uint32(b)) == uint32(a % b)
+//@   ensures op == "==" ==> Sem32(SpecBinOp(op, types.KindU8), uint32(a), uint32(b)) == b2u(a == b)
+//@   ensures op == "<" ==> Sem32(SpecBinOp(op, types.KindU8), uint32(a), uint32(b)) == b2u(a < b)
+//@   ensures op == ">=" ==> Sem32(SpecBinOp(op, types.KindU8), uint32(a), uint32(b)) == b2u(a >= b)
+//@ # (16-bit division and remainder: the 16- vs 32-bit divider equivalence is not decided by the
+//@ # solvers within the budget; left out rather than claimed)
+//@ lemma narrowDivCmpU16(op string, a uint16, b uint16)
+//@   arith bv
+//@   ensures op == "!=" ==> Sem32(SpecBinOp(op, types.KindU16), uint32(a), uint32(b)) == b2u(a != b)
+//@   ensures op == ">" ==> Sem32(SpecBinOp(op, types.KindU16), uint32(a), uint32(b)) == b2u(a > b)
+//@   ensures op == "<=" ==> Sem32(SpecBinOp(op, types.KindU16), uint32(a), uint32(b)) == b2u(a <= b)
+//@ lemma narrowDivCmpI8(op string, a int8, b int8)
+//@   arith bv
+//@   requires !SpecDivMod(op) || (b != 0 && !(a == -128 && b == -1))
+//@   ensures op == "/" ==> Sem32(SpecBinOp(op, types.KindI8), uint32(int32(a)), uint32(int32(b))) == uint32(int32(a / b))
+//@   ensures op == "%" ==> Sem32(SpecBinOp(op, types.KindI8), uint32(int32(a)), uint32(int32(b))) == uint32(int32(a % b))
+//@   ensures op == "<" ==> Sem32(SpecBinOp(op, types.KindI8), uint32(int32(a)), uint32(int32(b))) == b2u(a < b)
+//@   ensures op == ">=" ==> Sem32(SpecBinOp(op, types.KindI8), uint32(int32(a)), uint32(int32(b))) == b2u(a >= b)
+//@ lemma narrowDivCmpI16(op string, a int16, b int16)
+//@   arith bv
+//@   ensures op == ">" ==> Sem32(SpecBinOp(op, types.KindI16), uint32(int32(a)), uint32(int32(b))) == b2u(a > b)
+//@   ensures op == "<=" ==> Sem32(SpecBinOp(op, types.KindI16), uint32(int32(a)), uint32(int32(b))) == b2u(a <= b)
+//@ # ... but + - * need the result wrapped to the type's width ("two's-complement wrapping per
+//@ # integer width"), and the selected i32 opcode alone does not do that. These four lemmas FAIL on
+//@ # the pinned compiler, which emits no normalisation after narrow arithmetic (known finding:
+//@ # addu8(255, 1) returns 256; /verif/findings/c19_spec_deviation_test.go)
+//@ lemma narrowArithU8(op string, a uint8, b uint8)
+//@   arith bv
+//@   ensures op == "+" ==> Sem32(SpecBinOp(op, types.KindU8), uint32(a), uint32(b)) == uint32(a + b)
+//@   ensures op == "-" ==> Sem32(SpecBinOp(op, types.KindU8), uint32(a), uint32(b)) == uint32(a - b)
+//@   ensures op == "*" ==> Sem32(SpecBinOp(op, types.KindU8), uint32(a), uint32(b)) == uint32(a * b)
+//@ lemma narrowArithU16(op string, a uint16, b uint16)
+//@   arith bv
+//@   ensures op == "+" ==> Sem32(SpecBinOp(op, types.KindU16), uint32(a), uint32(b)) == uint32(a + b)
+//@   ensures op == "-" ==> Sem32(SpecBinOp(op, types.KindU16), uint32(a), uint32(b)) == uint32(a - b)
+//@   ensures op == "*" ==> Sem32(SpecBinOp(op, types.KindU16), uint32(a), uint32(b)) == uint32(a * b)
+//@ lemma narrowArithI8(op string, a int8, b int8)
+//@   arith bv
+//@   ensures op == "+" ==> Sem32(SpecBinOp(op, types.KindI8), uint32(int32(a)), uint32(int32(b))) == uint32(int32(a + b))
+//@   ensures op == "-" ==> Sem32(SpecBinOp(op, types.KindI8), uint32(int32(a)), uint32(int32(b))) == uint32(int32(a - b))
+//@   ensures op == "*" ==> Sem32(SpecBinOp(op, types.KindI8), uint32(int32(a)), uint32(int32(b))) == uint32(int32(a * b))
+//@ lemma narrowArithI16(op string, a int16, b int16)
+//@   arith bv
+//@   ensures op == "+" ==> Sem32(SpecBinOp(op, types.KindI16), uint32(int32(a)), uint32(int32(b))) == uint32(int32(a + b))
+//@   ensures op == "-" ==> Sem32(SpecBinOp(op, types.KindI16), uint32(int32(a)), uint32(int32(b))) == uint32(int32(a - b))
+//@   ensures op == "*" ==> Sem32(SpecBinOp(op, types.KindI16), uint32(int32(a)), uint32(int32(b))) == uint32(int32(a * b))
+
+//@ # ---- what has been emitted (ghost): number of opcodes written through a Writer and the last one.
+//@ # The byte buffer itself is a bytes.Buffer (outside the subset).
+//@ ghost SpecEmitted map[*Writer]int
+//@ ghost SpecLastOp map[*Writer]Opcode
+//@ trusted func (e *Writer) WriteOpcode(op Opcode)
+//@   ensures SpecEmitted[e] == old(SpecEmitted[e]) + 1 && SpecLastOp[e] == op
+//@   ensures forall x *Writer :: x != e ==> SpecEmitted[x] == old(SpecEmitted[x]) && SpecLastOp[x] == old(SpecLastOp[x])
+//@   modifies SpecEmitted, SpecLastOp
